@@ -104,6 +104,9 @@ def check(case):
             mech = "all-candidates-score-zero" if accs and all(a == 0 for a in accs) else "other"
             res.violate("selection", f"C16/knn/no-k-selected/{mech}",
                         f"KNN fit (max_k={case['max_k']}) raised {type(call.exc).__name__} at {call.where} after observing accuracies {accs}: no k was kept although k=1 is the smallest k with the highest accuracy")
+        elif crit and all(e[2] != e[2] for e in crit):
+            # every candidate's cut is NaN (reciprocals of denormal distances overflow): the criterion is undefined for this input
+            return res.reject("criterion-all-nan")
         else:
             res.violate("selection", f"C16/unsup/exception/{type(call.exc).__name__}",
                         f"unsupervised fit (k in {case['min_k']}..{case['max_k']}) raised at {call.where}: {str(call.exc)[:200]}")
@@ -145,8 +148,12 @@ def check(case):
         if ks != list(range(lo, lo + len(ks))) or not ks or ks[-1] > hi:
             res.violate("selection", "C16/unsup/candidates", f"evaluated ks {ks} are not a prefix of {lo}..{hi}")
             return res
-        if any(not math.isfinite(v) for _, v in cuts):
+        if any(v in (float("inf"), float("-inf")) for _, v in cuts):
             return res.reject("criterion-not-finite")
+        if all(v != v for _, v in cuts):
+            return res.reject("criterion-all-nan")
+        if any(v != v for _, v in cuts):
+            res.see("nan_cut_candidates")
         if ks[-1] != hi:
             if cuts[-1][1] != 0.0:
                 res.violate("selection", "C16/unsup/stopped-early", f"evaluation stopped at k={ks[-1]} < max_k={hi} although its cut is {cuts[-1][1]!r} != 0")
@@ -156,7 +163,8 @@ def check(case):
             res.violate("selection", "C16/unsup/continued-after-zero", f"a cut of exactly 0 at k={[k for k, v in cuts[:-1] if v == 0.0][0]} did not stop the evaluation: {cuts}")
             return res
         vals = [v for _, v in cuts]
-        want = ks[int(np.argmin(vals))]
+        # a NaN cut is not lower than anything: the smallest k with the lowest cut is taken over the comparable values
+        want = ks[int(np.argmin([v if v == v else float("inf") for v in vals]))]
         res.see("unsup_selection_checked")
         if best != want:
             res.violate("selection", "C16/unsup/not-smallest-argmin", f"best_k={best} but cuts by k are {cuts}: smallest k with the lowest cut is {want}")
